@@ -7,6 +7,7 @@
   correspondence check ties model and contract to the running code.
 -/
 import XlVerif.Lemmas.C11Names
+import XlVerif.Lemmas.C11Text
 namespace XlVerif.Props.C11
 open XlVerif XlVerif.Model.C11 XlVerif.Lemmas.C11
 open XlVerif.Spec.C11 (Text Coord PyVal Stored FTok FForm SCell Sheet Target TargetForm DefName Workbook
@@ -289,6 +290,126 @@ theorem names_bound {wb : Workbook} {ig : List Text} {m : M} (h : load wb ig = .
   · rw [hb]; unfold boundTo; simp only [hc]; rfl
 
 
+/-! ### `names_bound` against the statement -/
+
+/-- Targets for which the binding is the statement's: the sheet name is non-empty, has none of `$ ! :`, no
+    blank at either end, **no apostrophe** (the guard of finding D1101), and the corners are real
+    coordinates. -/
+def GoodTarget (t : Target) : Prop :=
+  t.sheet ≠ [] ∧ '$' ∉ t.sheet ∧ '!' ∉ t.sheet ∧ ':' ∉ t.sheet ∧ '\'' ∉ t.sheet ∧ strip t.sheet = t.sheet ∧
+  1 ≤ t.c1.col ∧ 1 ≤ t.c1.row ∧ (∀ p, t.snd = some p → 1 ≤ p.2.1.col ∧ 1 ≤ p.2.1.row)
+
+instance (t : Target) : Decidable (GoodTarget t) := by
+  unfold GoodTarget
+  have : Decidable (∀ p, t.snd = some p → 1 ≤ p.2.1.col ∧ 1 ≤ p.2.1.row) := by
+    cases h : t.snd with
+    | none => exact isTrue (by intro p hp; cases hp)
+    | some q =>
+      by_cases hq : 1 ≤ q.2.1.col ∧ 1 ≤ q.2.1.row
+      · exact isTrue (by intro p hp; injection hp with hp; rw [← hp]; exact hq)
+      · exact isFalse (fun hall => hq (hall q rfl))
+  infer_instance
+
+/-- The address `build_defined_names` computes is the statement's address of the target. -/
+theorem normAddress_good (t : Target) (hg : GoodTarget t) :
+    normAddress (Model.C11.Target.text t) = Spec.C11.Target.address t := by
+  obtain ⟨hne, hd, hb, _, ha, hst, _⟩ := hg
+  rw [normAddress_target t hne hd hb (fun _ => ⟨ha, hst⟩)]
+  unfold resolvedSheet restText Spec.C11.Target.address Spec.C11.addr
+  rw [show (if t.quoted = true then doubleApos t.sheet else t.sheet) = t.sheet by
+    split
+    · exact doubleApos_eq_self _ ha
+    · rfl]
+  rcases t.snd with _ | ⟨a, c2, b⟩
+  · simp [bare_eq_coordText]
+  · simp [bare_eq_coordText, List.append_assoc]
+
+theorem targetText_ne_ref (t : Target) (hd : '$' ∉ t.sheet) : Model.C11.Target.text t ≠ "#REF!".toList := by
+  intro e
+  have h1 := filter_target t hd
+  rw [e] at h1
+  have h2 : rsplit1 '!' (sheetPart t ++ '!' :: restText t) = (sheetPart t, restText t) :=
+    rsplit1_of _ _ _ (restText_no_bang t)
+  rw [← h1] at h2
+  have h3 : rsplit1 '!' (("#REF!".toList).filter (· ≠ '$')) = ("#REF".toList, []) := by decide
+  rw [h3] at h2
+  have h4 : restText t = [] := (Prod.mk.inj h2).2.symm
+  unfold restText bare at h4
+  have h5 := (List.append_eq_nil_iff.mp h4).1
+  exact digits_ne_nil t.c1.row (List.append_eq_nil_iff.mp h5).2
+
+/-- **names_bound_spec_partial.**  GOAL (full strength, refuted for this model and for the code — finding
+    D1101, counter-example `aposWb` below): *for every visible defined name with a cell or area target the
+    model's binding is the statement's (`Spec.C11.binding`)*.  Proved: the same for every target whose sheet
+    name has no apostrophe (`GoodTarget`): a name for a loaded cell is bound to that cell of the model, a
+    name for an area is bound to the `XLRange` of that area with exactly the members the statement lists. -/
+theorem names_bound_spec_partial {wb : Workbook} {ig : List Text} {m : M} (h : load wb ig = .ok m)
+    (hwf : ∀ sh ∈ wb.sheets, SheetWF sh) (hn : ((readDefinedNames wb).map Prod.fst).Nodup)
+    {d : DefName} (hd : d ∈ wb.names) {t : Target} (ht : d.target = .ref t) (hg : GoodTarget t) :
+    match Spec.C11.binding wb ig d with
+    | .cell a => dget m.names d.name = some (.cell a) ∧ a ∈ dkeys m.cells
+    | .range a rows => dget m.names d.name = some (.range ⟨a, d.name, t.sheet, rows⟩)
+    | .free => True := by
+  unfold Spec.C11.binding
+  simp only [ht]
+  cases hh : d.hidden with
+  | true => simp
+  | false =>
+    simp only [Bool.false_eq_true, if_false]
+    have hmem : (d.name, Model.C11.Target.text t) ∈ readDefinedNames wb := by
+      unfold readDefinedNames
+      apply List.mem_filterMap.mpr
+      refine ⟨d, hd, ?_⟩
+      have hnr : Model.C11.Target.text t ≠ "#REF!".toList := targetText_ne_ref t hg.2.1
+      simp only [ht, targetText, hh, Bool.not_false, Bool.true_and, decide_eq_true_eq]
+      rw [if_pos hnr]
+    have hnb := names_bound h hn hmem
+    rw [normAddress_good t hg] at hnb
+    obtain ⟨hne, _, hb, hc, ha, hst, h1, h2, h3⟩ := hg
+    have hcolon_bare : ∀ c : Coord, ':' ∉ bare c := fun c hx => (bare_chars c _ hx).2.2.1 rfl
+    cases hs : t.snd with
+    | none =>
+      simp only
+      have haddr : Spec.C11.Target.address t = Spec.C11.addr t.sheet t.c1 := by
+        unfold Spec.C11.Target.address; rw [hs]
+      have hnocolon : (Spec.C11.addr t.sheet t.c1).contains ':' = false := by
+        cases hcon : (Spec.C11.addr t.sheet t.c1).contains ':'
+        · rfl
+        · exfalso
+          have := List.contains_iff_mem.mp hcon
+          unfold Spec.C11.addr at this
+          rcases List.mem_append.mp this with hx | hx
+          · exact hc hx
+          · rcases List.mem_cons.mp hx with hx | hx
+            · revert hx; decide
+            · exact hcolon_bare t.c1 hx
+      by_cases hany : ((Spec.C11.cells wb ig).any fun c => c.address == Spec.C11.addr t.sheet t.c1) = true
+      · simp only [hany, if_true]
+        obtain ⟨s, hsm, hsa⟩ := List.any_eq_true.mp hany
+        have hsa' : s.address = Spec.C11.addr t.sheet t.c1 := by simpa using hsa
+        rw [← cells_refine wb ig hwf] at hsm
+        obtain ⟨e, he, hes⟩ := List.mem_map.mp hsm
+        have hkey : Spec.C11.addr t.sheet t.c1 ∈ (cellEntries wb ig).map Prod.fst := by
+          rw [← hsa', ← hes]; exact List.mem_map_of_mem (f := Prod.fst) he
+        rw [haddr] at hnb
+        exact (hnb.1 hnocolon).1 hkey
+      · simp only [hany]; trivial
+    | some p =>
+      obtain ⟨a, c2, b⟩ := p
+      simp only
+      have hc2 := h3 (a, c2, b) hs
+      have haddr : Spec.C11.Target.address t = t.sheet ++ '!' :: (bare t.c1 ++ ':' :: bare c2) := by
+        unfold Spec.C11.Target.address Spec.C11.addr; rw [hs]; simp [bare_eq_coordText, List.append_assoc]
+      have hcolon : (Spec.C11.Target.address t).contains ':' = true := by
+        apply List.contains_iff_mem.mpr
+        rw [haddr]; simp
+      have hr := hnb.2 hcolon
+      rw [hr]
+      have hrr : resolveRanges (Spec.C11.Target.address t) = (t.sheet, Spec.C11.members t.sheet t.c1 c2) := by
+        rw [haddr]
+        exact resolveRanges_area t.sheet t.c1 c2 hne hb (resolveSheet_plain _ ha hst) h1 h2 hc2.1 hc2.2
+      simp [mkRange, hrr]
+
 /-! ### Loading raises in three situations only -/
 
 /-- **load_total_partial.**  GOAL (full strength, refuted for this model and for the code, finding D1102):
@@ -335,5 +456,11 @@ example : normAddress (targetText (.ref ⟨"It's".toList, true, true, ⟨1, 1⟩
   decide +kernel
 example : ((load Examples.aposWb []).toOption.map fun m => dget m.names "ap".toList) = some none
     ∧ Spec.C11.bindings Examples.aposWb [] = [("ap".toList, .cell "It's!A1".toList)] := by decide +kernel
+
+
+/-- the guard of `names_bound_spec_partial` is met by the names of an ordinary workbook, and is exactly
+    what the D1101 witness lacks. -/
+example : GoodTarget ⟨"My Sheet".toList, true, true, ⟨1, 1⟩, true, some (true, ⟨2, 3⟩, true)⟩ := by decide +kernel
+example : ¬ GoodTarget ⟨"It's".toList, true, true, ⟨1, 1⟩, true, none⟩ := by decide +kernel
 
 end XlVerif.Props.C11
